@@ -3,6 +3,7 @@ package vc
 // Symbolic heap state: a map of overrides on top of a lazily instantiated provider.
 
 import (
+	"go/types"
 	"fmt"
 	"regexp"
 	"strconv"
@@ -379,6 +380,13 @@ func (p *allocProv) get(u *Unit, key string) string {
 		p.cache[key] = t
 		return t
 	}
+	if u.pureDataKey(key) {
+		// only plain data is stored under this key: what it holds at the addresses of the callee's
+		// fresh objects is as unconstrained before the call as after it, so the same term serves
+		t := p.prev.get(u, key)
+		p.cache[key] = t
+		return t
+	}
 	n := q(key + "@" + p.tag)
 	u.emit("(declare-const %s %s)", n, srt)
 	old := p.prev.get(u, key)
@@ -399,4 +407,37 @@ func (p *hvProv) get(u *Unit, key string) string {
 		return p.prev.get(u, key)
 	}
 	return p.inner.get(u, key)
+}
+
+// pureDataKey: the values stored under the key contain no references (integers, booleans,
+// floats, strings, structs of those; set-membership ghosts)
+func (u *Unit) pureDataKey(key string) bool {
+	if strings.HasPrefix(key, "MapDom.") || key == "MapLen" || strings.HasPrefix(key, "Ghost.") {
+		return true
+	}
+	et, ok := u.keyElem[key]
+	if !ok {
+		return false
+	}
+	return noRefs(et, 0)
+}
+
+func noRefs(t types.Type, depth int) bool {
+	if depth > 4 {
+		return false
+	}
+	switch tt := t.Underlying().(type) {
+	case *types.Basic:
+		return tt.Kind() != types.UnsafePointer
+	case *types.Struct:
+		for i := 0; i < tt.NumFields(); i++ {
+			if !noRefs(tt.Field(i).Type(), depth+1) {
+				return false
+			}
+		}
+		return true
+	case *types.Array:
+		return noRefs(tt.Elem(), depth+1)
+	}
+	return false
 }
